@@ -23,8 +23,11 @@ class CmdScenario(wfscn.ProgScenario):
        [['pause','resume']] (default: any sequence up to max_cmds)."""
 
     def __init__(self, name, prog, menu=(), max_cmds=1, sequences=None,
-                 only_tasks=None, **kw):
+                 only_tasks=None, cmd_db_fault=False, **kw):
         super(CmdScenario, self).__init__(name, prog, **kw)
+        # the first commit of every operator command fails as a deadlock
+        # victim and the command's transaction is retried by the engine
+        self.cmd_db_fault = cmd_db_fault
         self.menu = list(menu)
         self.max_cmds = max_cmds
         self.sequences = sequences
@@ -36,18 +39,21 @@ class CmdScenario(wfscn.ProgScenario):
     def kwargs(self):
         d = super(CmdScenario, self).kwargs()
         d.update(menu=self.menu, max_cmds=self.max_cmds,
-                 sequences=self.sequences, only_tasks=self.only_tasks)
+                 sequences=self.sequences, only_tasks=self.only_tasks,
+                 cmd_db_fault=self.cmd_db_fault)
         return d
 
     def describe(self):
         d = super(CmdScenario, self).describe()
         d.update(menu=self.menu, max_cmds=self.max_cmds,
-                 sequences=self.sequences)
+                 sequences=self.sequences,
+                 first_commit_of_every_command_deadlocks=self.cmd_db_fault)
         return d
 
     def setup(self):
         super(CmdScenario, self).setup()
         env.W.extra['cmds'] = []
+        env.W.extra['cmd_db_fault'] = self.cmd_db_fault
 
     def extra_state(self):
         return [env.W.extra.get('cmds'), sorted(env.W.extra.get('hist', []))]
